@@ -34,7 +34,7 @@ StepVerdict(e, pre, post) ==
   IN IF e.outcome = "ok"
      THEN IF \E r \in okS : r.st = post THEN "ok"
           ELSE IF okS = {} THEN "accepted_but_must_reject" ELSE "wrong_state"
-     ELSE IF post # pre THEN "rejected_not_atomic"
+     ELSE IF post # pre \/ e.obs.enc # e.preobs.enc \/ e.obs.views # e.preobs.views THEN "rejected_not_atomic"
           ELSE IF rejS = {} THEN "rejected_but_must_succeed" ELSE "ok"
 
 (* ---- the other public views of the state after the call: C10 ---- *)
@@ -86,7 +86,7 @@ ReadVerdict(e) ==
   ELSE IF e.outcome # "ok" THEN "read_raised"
   ELSE IF e.post # e.pre THEN "read_changed_children"
   ELSE IF e.obs.enc # e.preobs.enc THEN "read_changed_encoding"
-  ELSE IF e.obs.valid # e.preobs.valid THEN "read_changed_validation"
+  ELSE IF "valid" \in DOMAIN e.obs /\ e.obs.valid # e.preobs.valid THEN "read_changed_validation"
   ELSE "ok"
 
 Verdict(e, pre) ==
